@@ -262,6 +262,46 @@ theorem C14_split_pair_volume (c : PlayerVol) (muted : Nat → Bool) (chn root p
 
 example : splitPairVol ⟨6, 6, 0, 100⟩ (fun _ => false) 0 0 1 1024 = 0 ∧ splitPairVol ⟨6, 6, 50, 100⟩ (fun _ => false) 0 0 1 1024 = 512 := by decide
 
+/-- **The volume-table lookup stays inside the table**: `process_volume` looks the table up *before* the master /
+effects-mixer scaling (`volTableBeforeMaster`, regenerated from the statement order of src/player.c), i.e. with a value
+`0 … 0x400` (the 16-bit volume stage ends in `>> 18` of at most 2^28, the channel volume is at most 100 %); the index is
+then at most 256 for `volbase == 0xff` (table of 257 entries) and at most 64 otherwise (65 entries) — table lengths
+counted in the loaders by the translator.  After a scaling by up to 200 % the same lookup would reach index 512. -/
+theorem C14_vol_table_index (volbaseFF : Bool) (fv : Int) (h : 0 ≤ fv ∧ fv ≤ 0x400) :
+    volTableBeforeMaster = some 1 ∧ 0 ≤ volTableIndex volbaseFF fv ∧
+    (volbaseFF = true → (volTableIndex volbaseFF fv).toNat < volTableLenArch.getD 0) ∧
+    (volbaseFF = false → (volTableIndex volbaseFF fv).toNat < volTableLenPtm.getD 0) := by
+  refine ⟨by decide, ?_, ?_, ?_⟩
+  · cases volbaseFF <;> simp only [volTableIndex, volTableShift, volTableShiftFF, volTableShiftElse, Option.getD, if_true,
+      Bool.false_eq_true, if_false] <;> rw [Int.shiftRight_eq_div_pow] <;> omega
+  · intro hb
+    simp only [hb, volTableIndex, volTableShift, volTableShiftFF, volTableLenArch, Option.getD, if_true]
+    rw [Int.shiftRight_eq_div_pow]; omega
+  · intro hb
+    simp only [hb, volTableIndex, volTableShift, volTableShiftElse, volTableLenPtm, Option.getD, Bool.false_eq_true, if_false]
+    rw [Int.shiftRight_eq_div_pow]; omega
+
+/-- **The master volume scales the table value linearly** (and volume 0 silences volume-table formats too): the voice
+volume is the table output times `master_vol / 100`, not the table looked up at the scaled volume. -/
+theorem C14_vol_table_then_master (c : PlayerVol) (muted : Nat → Bool) (chn root : Nat) (t : Int → Int) (ff : Bool) (fv : Int)
+    (hc : chn < c.modChn) (hm : muted root = false) :
+    volumeTail c muted chn root (some t) ff fv
+      = Int.tdiv (t (volTableIndex ff fv) * 2 ^ volTableShift ff * c.masterVol) (masterDiv.getD 100) ∧
+    (c.masterVol = 0 → volumeTail c muted chn root (some t) ff fv = 0) := by
+  have e : volumeTail c muted chn root (some t) ff fv
+      = Int.tdiv (t (volTableIndex ff fv) * 2 ^ volTableShift ff * c.masterVol) (masterDiv.getD 100) := by
+    simp [volumeTail, voiceVol, virtSetVol, masterStage, usesMaster, hc, hm, volTableStage]
+  refine ⟨e, ?_⟩
+  intro h0
+  rw [e, h0]
+  simp
+
+/-- the reordered computation differs: table `i ↦ 2·i` capped at 128 (a compressing table), volume 0x200, master 200 % -/
+example :
+    let t : Int → Int := fun i => if i < 64 then 2 * i else 128
+    volumeTail ⟨4, 4, 200, 100⟩ (fun _ => false) 0 0 (some t) true 0x200 = 1024 ∧
+    volTableStage (some t) true (masterStage ⟨4, 4, 200, 100⟩ 0 0 0x200) = 512 := by decide
+
 /-- The full statement: master volume 0 silences every voice of the module — those on module
 channels and the background (NNA) voices whose root is a module channel. -/
 def SilenceMasterFull : Prop :=
